@@ -326,6 +326,12 @@ class Interp:
                 return f(*args, **kwargs)
             except (ModelError, RepoRaise, NeedChoice, AnalysisError, UnknownTruth):
                 raise
+            except TypeError as e:
+                # a library model called with a keyword / arity it does not implement (out=, order=, ...): outside the modelled
+                # subset, never an internal error and never silently ignored
+                if "unexpected keyword argument" in str(e) or "positional argument" in str(e):
+                    raise Unsupported(f"library model {getattr(f, '__name__', f)!s}: {e} at {self.where(node) if node else '?'}")
+                raise
         raise Unsupported(f"call of non-callable model value {f!r} at {self.where(node) if node else '?'}")
 
     def call_repo(self, fr: FuncRef, args, kwargs, node=None):
